@@ -73,7 +73,44 @@ fn material() -> &'static Material {
     })
 }
 
-type Transport = Pin<Box<AsyncStream<SimStream>>>;
+/// What sits between the TLS layer and the simulated channel: compio-io's buffering poll-style
+/// adapter over a compio-style stream, or an unbuffered poll-style transport.
+enum Transport {
+    Adapter(Pin<Box<AsyncStream<SimStream>>>),
+    Direct(FutStream),
+}
+
+impl futures_util::io::AsyncRead for Transport {
+    fn poll_read(self: Pin<&mut Self>, cx: &mut std::task::Context<'_>, buf: &mut [u8]) -> std::task::Poll<std::io::Result<usize>> {
+        match self.get_mut() {
+            Transport::Adapter(s) => s.as_mut().poll_read(cx, buf),
+            Transport::Direct(s) => Pin::new(s).poll_read(cx, buf),
+        }
+    }
+}
+
+impl futures_util::io::AsyncWrite for Transport {
+    fn poll_write(self: Pin<&mut Self>, cx: &mut std::task::Context<'_>, buf: &[u8]) -> std::task::Poll<std::io::Result<usize>> {
+        match self.get_mut() {
+            Transport::Adapter(s) => s.as_mut().poll_write(cx, buf),
+            Transport::Direct(s) => Pin::new(s).poll_write(cx, buf),
+        }
+    }
+
+    fn poll_flush(self: Pin<&mut Self>, cx: &mut std::task::Context<'_>) -> std::task::Poll<std::io::Result<()>> {
+        match self.get_mut() {
+            Transport::Adapter(s) => s.as_mut().poll_flush(cx),
+            Transport::Direct(s) => Pin::new(s).poll_flush(cx),
+        }
+    }
+
+    fn poll_close(self: Pin<&mut Self>, cx: &mut std::task::Context<'_>) -> std::task::Poll<std::io::Result<()>> {
+        match self.get_mut() {
+            Transport::Adapter(s) => s.as_mut().poll_close(cx),
+            Transport::Direct(s) => Pin::new(s).poll_close(cx),
+        }
+    }
+}
 
 fn transport_faults() -> Faults {
     let mut f = Faults::draw(false);
@@ -102,6 +139,8 @@ fn tls_echo() -> RunResult {
     let big = sim::flip("payload.big", 1, 16);
     let req = gen_payload("req.len", if big { 40_000 } else { 600 });
     let resp = gen_payload("resp.len", if big { 40_000 } else { 600 });
+    let trailer_client = gen_payload("trailer.c", 300);
+    let trailer_server = gen_payload("trailer.s", 300);
     let wchunk = 1 + sim::range("w.chunk", 0, 2047) as usize;
     let rchunk = 1 + sim::range("r.chunk", 0, 2047) as usize;
     // a big payload in 1-byte records through 1-byte channels is just slow (tens of polls per
@@ -114,8 +153,13 @@ fn tls_echo() -> RunResult {
     b.tx.0.borrow_mut().hold_until_flush = sim::flip("hold.ba", 1, 3);
     sim::log(|| format!("client {} / server {}; caps {cap_ab}/{cap_ba}; adapter base {base_a}/{base_b}; request {} bytes, response {} bytes; a {fa:?} b {fb:?}", if client_native { "native-tls" } else { "rustls" }, if server_native { "native-tls" } else { "rustls" }, req.len(), resp.len()));
 
-    let ta: Transport = Box::pin(AsyncStream::with_capacity(base_a, a.clone()));
-    let tb: Transport = Box::pin(AsyncStream::with_capacity(base_b, b.clone()));
+    let direct_a = sim::flip("transport.direct.a", 1, 3);
+    let direct_b = sim::flip("transport.direct.b", 1, 3);
+    let skip_flush_c = sim::flip("client.close.without.flush", 1, 3);
+    let skip_flush_s = sim::flip("server.close.without.flush", 1, 3);
+    sim::log(|| format!("transports: client {} / server {}; close without a flush first: client {skip_flush_c} server {skip_flush_s}", if direct_a { "direct" } else { "adapter" }, if direct_b { "direct" } else { "adapter" }));
+    let ta = if direct_a { Transport::Direct(a.clone().into()) } else { Transport::Adapter(Box::pin(AsyncStream::with_capacity(base_a, a.clone()))) };
+    let tb = if direct_b { Transport::Direct(b.clone().into()) } else { Transport::Adapter(Box::pin(AsyncStream::with_capacity(base_b, b.clone()))) };
     let connector = if client_native { TlsConnector::from(m.native_client.clone()) } else { TlsConnector::from(m.rustls_client.clone()) };
     let acceptor = if server_native { TlsAcceptor::from(m.native_server.clone()) } else { TlsAcceptor::from(m.rustls_server.clone()) };
 
@@ -123,6 +167,9 @@ fn tls_echo() -> RunResult {
     let got_req: RefCell<Vec<u8>> = RefCell::new(Vec::new());
     let got_resp: RefCell<Vec<u8>> = RefCell::new(Vec::new());
     let server_saw_eof = RefCell::new(false);
+    let client_saw_eof = RefCell::new(false);
+    let got_trailer_c: RefCell<Vec<u8>> = RefCell::new(Vec::new());
+    let got_trailer_s: RefCell<Vec<u8>> = RefCell::new(Vec::new());
     let client_done = RefCell::new(false);
     let server_done = RefCell::new(false);
     let (a_tx, b_tx) = (a.tx.clone(), b.tx.clone());
@@ -131,7 +178,10 @@ fn tls_echo() -> RunResult {
         let (a_tx, b_tx) = (a_tx.clone(), b_tx.clone());
         let (errs, got_req, got_resp, server_saw_eof) = (&errs, &got_req, &got_resp, &server_saw_eof);
         let (req_c, resp_s) = (req.clone(), resp.clone());
+        let (trailer_c, trailer_s) = (trailer_client.clone(), trailer_server.clone());
+        let (got_trailer_c, got_trailer_s, client_saw_eof) = (&got_trailer_c, &got_trailer_s, &client_saw_eof);
         let req_len = req.len();
+        let resp_len = resp.len();
         let client: LocalFut<'_> = Box::pin(async move {
             let mut s: TlsStream<Transport> = match connector.connect("localhost", ta).await {
                 Ok(s) => s,
@@ -148,16 +198,37 @@ fn tls_echo() -> RunResult {
                 return errs.borrow_mut().push(format!("io-error|client flush: {e}"));
             }
             let mut buf = vec![0u8; rchunk];
-            loop {
-                match s.read(&mut buf).await {
-                    Ok(0) => break,
+            while got_resp.borrow().len() < resp_len {
+                let want = (resp_len - got_resp.borrow().len()).min(buf.len());
+                match s.read(&mut buf[..want]).await {
+                    Ok(0) => return errs.borrow_mut().push("lost-bytes|client saw EOF before the whole response".to_string()),
                     Ok(n) => got_resp.borrow_mut().extend_from_slice(&buf[..n]),
-                    Err(e) => return errs.borrow_mut().push(format!("unclean-close|client read: {e}")),
+                    Err(e) => return errs.borrow_mut().push(format!("io-error|client read: {e}")),
+                }
+            }
+            // a trailer, then close; close must deliver it even without an explicit flush
+            for c in trailer_c.chunks(wchunk) {
+                if let Err(e) = s.write_all(c).await {
+                    return errs.borrow_mut().push(format!("io-error|client trailer write: {e}"));
+                }
+            }
+            if !skip_flush_c {
+                if let Err(e) = s.flush().await {
+                    return errs.borrow_mut().push(format!("io-error|client flush: {e}"));
                 }
             }
             if let Err(e) = s.close().await {
-                errs.borrow_mut().push(format!("io-error|client close: {e}"));
+                return errs.borrow_mut().push(format!("io-error|client close: {e}"));
             }
+            // the server answers the half-close with its own trailer and close
+            loop {
+                match s.read(&mut buf).await {
+                    Ok(0) => break,
+                    Ok(n) => got_trailer_s.borrow_mut().extend_from_slice(&buf[..n]),
+                    Err(e) => return errs.borrow_mut().push(format!("unclean-close|client read after close: {e}")),
+                }
+            }
+            *client_saw_eof.borrow_mut() = true;
         });
         let server: LocalFut<'_> = Box::pin(async move {
             let mut s: TlsStream<Transport> = match acceptor.accept(tb).await {
@@ -168,7 +239,8 @@ fn tls_echo() -> RunResult {
             b_tx.set_quiet_to(false);
             let mut buf = vec![0u8; rchunk];
             while got_req.borrow().len() < req_len {
-                match s.read(&mut buf).await {
+                let want = (req_len - got_req.borrow().len()).min(buf.len());
+                match s.read(&mut buf[..want]).await {
                     Ok(0) => return errs.borrow_mut().push("lost-bytes|server saw EOF before the whole request".to_string()),
                     Ok(n) => got_req.borrow_mut().extend_from_slice(&buf[..n]),
                     Err(e) => return errs.borrow_mut().push(format!("io-error|server read: {e}")),
@@ -182,13 +254,26 @@ fn tls_echo() -> RunResult {
             if let Err(e) = s.flush().await {
                 return errs.borrow_mut().push(format!("io-error|server flush: {e}"));
             }
-            if let Err(e) = s.close().await {
-                return errs.borrow_mut().push(format!("io-error|server close: {e}"));
+            loop {
+                match s.read(&mut buf).await {
+                    Ok(0) => break,
+                    Ok(n) => got_trailer_c.borrow_mut().extend_from_slice(&buf[..n]),
+                    Err(e) => return errs.borrow_mut().push(format!("unclean-close|server read: {e}")),
+                }
             }
-            match s.read(&mut buf).await {
-                Ok(0) => *server_saw_eof.borrow_mut() = true,
-                Ok(n) => errs.borrow_mut().push(format!("content|server read {n} unexpected bytes after the request")),
-                Err(e) => errs.borrow_mut().push(format!("unclean-close|server read after close: {e}")),
+            *server_saw_eof.borrow_mut() = true;
+            for c in trailer_s.chunks(wchunk) {
+                if let Err(e) = s.write_all(c).await {
+                    return errs.borrow_mut().push(format!("io-error|server trailer write: {e}"));
+                }
+            }
+            if !skip_flush_s {
+                if let Err(e) = s.flush().await {
+                    return errs.borrow_mut().push(format!("io-error|server flush: {e}"));
+                }
+            }
+            if let Err(e) = s.close().await {
+                errs.borrow_mut().push(format!("io-error|server close: {e}"));
             }
         });
         if let Err(v) = run_tasks(vec![client, server], &mut || false, 4_000_000) {
@@ -218,5 +303,8 @@ fn tls_echo() -> RunResult {
     check!(*got_req.borrow() == req, "content", "request through TLS: {}", first_diff(&got_req.borrow(), &req));
     check!(*got_resp.borrow() == resp, "content", "response through TLS: {}", first_diff(&got_resp.borrow(), &resp));
     check!(*server_saw_eof.borrow(), "unclean-close", "server did not observe the client's clean close");
+    check!(*client_saw_eof.borrow(), "unclean-close", "client did not observe the server's clean close");
+    check!(*got_trailer_c.borrow() == trailer_client, "content", "client trailer (written right before close{}): {}", if skip_flush_c { ", no flush" } else { "" }, first_diff(&got_trailer_c.borrow(), &trailer_client));
+    check!(*got_trailer_s.borrow() == trailer_server, "content", "server trailer (written after the client's half-close{}): {}", if skip_flush_s { ", no flush" } else { "" }, first_diff(&got_trailer_s.borrow(), &trailer_server));
     Ok(())
 }
